@@ -148,6 +148,13 @@ def check_det(kind):
             d = T.CircularDetector(odl.uniform_partition(-1, 1, 5), axis=rng.standard_normal(2), radius=rng.uniform(1.5, 4))
         else:
             d = T.Flat2dDetector(odl.uniform_partition([-2, -1], [2, 1], (5, 4)), axes=[rng.standard_normal(3), rng.standard_normal(3)])
+        zero = 0.0 if d.ndim == 1 else (0.0, 0.0)
+        if not np.allclose(d.surface(zero), 0, atol=TOL):
+            return '%s: surface(0) = %r is not the reference point' % (kind, d.surface(zero))
+        ax_given = np.atleast_2d(d.axis if d.ndim == 1 else d.axes)
+        want = ax_given * (getattr(d, 'radius', 1.0))
+        if not np.allclose(np.atleast_2d(d.surface_deriv(zero)), want, atol=TOL):
+            return '%s: surface_deriv(0) = %r, expected [radius *] axis = %r (detector not aligned with its axis)' % (kind, d.surface_deriv(zero), want)
         for shape in ((), (3,)):
             u = tuple(rng.uniform(d.params.min_pt[k], d.params.max_pt[k], shape) for k in range(d.ndim))
             u_ = u[0] if d.ndim == 1 else u
@@ -274,7 +281,7 @@ def replay(ob):
     try:
         if parts[0] == 'rot':
             bad = check_rot(parts[1])
-        elif parts[0] == 'det':
+        elif parts[0] in ('det', 'ctor'):
             bad = check_det(parts[1])
         elif parts[0] == 'geom':
             bad = check_geom(parts[1])
